@@ -175,6 +175,8 @@ class P2WSHSortedMulti:
                 raise ValueError(
                     f"Invalid BIP32 path `{path}` in key record: {key_record}"
                 )
+            # is_valid_bip32_path forgives surrounding whitespace and a capital M: store the plain m/... form
+            path = "m" + path.strip()[1:]
 
             xfp_hex = key_record.get("xfp")
             if not is_valid_xfp_hex(xfp_hex):
